@@ -16,14 +16,26 @@ def rule_m1(chk: Check, ix: Index):
     if len(heads) != 1:
         raise AnalysisError("token loop of consume_macro_params not found")
     head = heads[0]
-    fetch = [n for n in cfg.nodes if n.kind == "stmt" and isinstance(n.stmt, ast.Assign) and norm_stmt(n.stmt.targets[0]) == "tok"]
-    appends = [n.id for n in cfg.nodes if n.kind == "stmt" and isinstance(n.stmt, (ast.Assign, ast.AugAssign)) and
-               norm_stmt(n.stmt) in ("string = tok.string", "string += tok.string")]
+    # the variable handed out as the raw text, and the variable holding the token just fetched
+    rets = [n for n in own_nodes(f.node) if isinstance(n, ast.Return) and isinstance(n.value, ast.Call) and norm_stmt(n.value.func) == "TokenInfo"
+            and n.value.args and "MACRO_PARAM" in norm_stmt(n.value.args[0])]
+    textvar = norm_stmt(rets[0].value.args[1]) if rets and len(rets[0].value.args) > 1 else None
+    fetch = [n for n in cfg.nodes if n.kind == "stmt" and isinstance(n.stmt, ast.Assign) and isinstance(n.stmt.targets[0], ast.Name)
+             and isinstance(n.stmt.value, ast.Call) and ("next" in norm_stmt(n.stmt.value.func))]
+    tokvar = fetch[0].stmt.targets[0].id if fetch else None
+    appends = []
+    for n in cfg.nodes:
+        if n.kind != "stmt" or not isinstance(n.stmt, (ast.Assign, ast.AugAssign)):
+            continue
+        tgt = n.stmt.targets[0] if isinstance(n.stmt, ast.Assign) else n.stmt.target
+        if textvar and tokvar and norm_stmt(tgt) == textvar and any(
+                isinstance(x, ast.Attribute) and x.attr == "string" and norm_stmt(x.value) == tokvar for x in ast.walk(n.stmt.value)):
+            appends.append(n.id)
     chk.count("M1-must-append")
-    ok = len(fetch) == 1 and len(appends) == 2 and cfg.must_pass(fetch[0].id, [head.id], appends)
+    ok = len(fetch) == 1 and len(appends) >= 1 and cfg.must_pass(fetch[0].id, [head.id], appends)
     chk.require(ok, "M1-must-append", "consume_macro_params:every-token-appended", f.where,
                 "every token that does not end the argument must be appended to the captured text before the next token is fetched "
-                "(a path back to the loop head skips both `string = tok.string` and `string += tok.string`)")
+                "(some path back to the loop head skips every statement that adds the token's text)")
     # the only ways out of the loop are the two delimiters at bracket depth 0
     breaks = [n for n in cfg.nodes if n.kind == "stmt" and isinstance(n.stmt, ast.Break)]
     chk.count("M1-must-append")
